@@ -247,7 +247,13 @@ impl<'s, R: de::read::take::Take> DecompressionState<'s, R> {
 				source_reader,
 			} => {
 				let (reader, config) = deserializer_state.into_inner();
-				(source_reader, config, reader.into_inner().into_inner())
+				let cursor = reader.into_inner();
+				if cursor.position() < cursor.get_ref().len() as u64 {
+					return Err(de::DeError::new(
+						"There's decompressed data left in the block after deserializing it entirely",
+					));
+				}
+				(source_reader, config, cursor.into_inner())
 			}
 		})
 	}
